@@ -84,7 +84,7 @@ fn single_faults(ctx: &mut Ctx, enc: &[u8], rng: &mut Rng, exhaustive: bool) {
             }
         }
     } else {
-        for _ in 0..64 {
+        for _ in 0..(if ctx.miri { 24 } else { 64 }) {
             let mut m = enc.to_vec();
             let i = rng.below(n);
             m[i] ^= 1 << rng.below(8);
@@ -92,9 +92,12 @@ fn single_faults(ctx: &mut Ctx, enc: &[u8], rng: &mut Rng, exhaustive: bool) {
         }
     }
     // substitution with interesting bytes, plus length +-1
-    let offs: Vec<usize> = if exhaustive { (0..n).collect() } else { (0..48).map(|_| rng.below(n)).collect() };
+    let offs: Vec<usize> = if exhaustive { (0..n).collect() } else { (0..(if ctx.miri { 6 } else { 48 })).map(|_| rng.below(n)).collect() };
     for &i in &offs {
         for &v in INTERESTING {
+            if ctx.miri && !rng.chance(1, 4) {
+                continue;
+            }
             if enc[i] == v {
                 continue;
             }
@@ -121,7 +124,7 @@ fn single_faults(ctx: &mut Ctx, enc: &[u8], rng: &mut Rng, exhaustive: bool) {
 
 fn word_faults(ctx: &mut Ctx, enc: &[u8], rng: &mut Rng) {
     // rewrite every aligned-looking word position in the first words with header / entry values
-    let words = (enc.len() / 4).min(24);
+    let words = (enc.len() / 4).min(if ctx.miri { 4 } else { 24 });
     let count_cap: u32 = if ctx.miri { 1 << 10 } else { 1 << 22 };
     for w in 0..words {
         let old = u32::from_be_bytes(enc[w * 4..w * 4 + 4].try_into().unwrap());
@@ -152,7 +155,7 @@ fn word_faults(ctx: &mut Ctx, enc: &[u8], rng: &mut Rng) {
 }
 
 fn multi_faults(ctx: &mut Ctx, enc: &[u8], rng: &mut Rng) {
-    for _ in 0..32 {
+    for _ in 0..(if ctx.miri { 8 } else { 32 }) {
         let mut m = enc.to_vec();
         let k = rng.below(3) + 2;
         for _ in 0..k {
@@ -321,10 +324,10 @@ pub fn run(ctx: &mut Ctx) {
                         m.push(k.wrapping_mul(29));
                     }
                 }
-                hostile(ctx, &m, "number-tag-width");
-                if ctx.miri && tag > 0x70 {
-                    break;
+                if ctx.miri && (tag as usize * 11 + len as usize) % 23 != 0 {
+                    continue;
                 }
+                hostile(ctx, &m, "number-tag-width");
             }
         }
         // large header counts (sequentially, one thread)
@@ -338,13 +341,16 @@ pub fn run(ctx: &mut Ctx) {
         }
     }
 
-    let n = ctx.budget(1200, 40_000);
+    let n = if ctx.miri { ctx.miri_cases(1) } else { ctx.budget(1_600, 40_000) };
     for i in 0..n {
         if !ctx.next_case() {
             return;
         }
         let mut rng = ctx.rng.fork();
-        let doc = match i % 4 {
+        let doc = if ctx.miri {
+            gen::doc(&mut rng, &gen::DocCfg { max_depth: 2, max_fan: 2, nonfinite: true, container_p: 4 })
+        } else {
+            match i % 4 {
             0 => gen::doc(&mut rng, &gen::DOC_SMALL),
             1 => gen::doc(&mut rng, &gen::DocCfg { max_depth: 2, max_fan: 3, nonfinite: true, container_p: 5 }),
             2 => gen::doc(&mut rng, &gen::DOC_DEFAULT),
@@ -352,18 +358,19 @@ pub fn run(ctx: &mut Ctx) {
                 let small = gen::small_scalars();
                 rng.pick(&small).clone()
             }
+            }
         };
         let enc = refcodec::encode(&doc);
         ctx.count("seed_documents");
         ctx.sample(|| format!("seed {} = {} (+ faults)", doc.show(), hex(&enc)));
-        if enc.len() <= 4096 {
+        if enc.len() <= if ctx.miri { 48 } else { 4096 } {
             prefixes(ctx, &enc, &doc);
         }
-        let exhaustive = enc.len() <= if ctx.miri { 24 } else { 256 };
+        let exhaustive = enc.len() <= if ctx.miri { 0 } else { 256 };
         single_faults(ctx, &enc, &mut rng, exhaustive);
         word_faults(ctx, &enc, &mut rng);
         multi_faults(ctx, &enc, &mut rng);
-        for _ in 0..16 {
+        for _ in 0..(if ctx.miri { 4 } else { 16 }) {
             random_behind_header(ctx, &mut rng);
         }
         bad_utf8_strings(ctx, &mut rng);
@@ -378,7 +385,7 @@ pub fn run(ctx: &mut Ctx) {
         let st = refjson::Style { ws: 1, esc: 1, numvar: true };
         let text = refjson::to_text(&finite, &st, &mut rng, false);
         text_fallback(ctx, &text, "generated");
-        for _ in 0..12 {
+        for _ in 0..(if ctx.miri { 3 } else { 12 }) {
             let t = lookalike_text(&mut rng);
             text_fallback(ctx, &t, "header-lookalike");
         }
